@@ -667,10 +667,10 @@ class LiteralUnmarshaller(AbstractUnmarshaller[LiteralT], tp.Generic[LiteralT]):
         self.values = inspection.args(t, evaluate=True)
 
     def __call__(self, val: tp.Any) -> LiteralT:
-        if val in self.values:
+        if inspection.isliteralmember(val, self.values):
             return val
         decoded = serdes.load(val)
-        if decoded in self.values:
+        if inspection.isliteralmember(decoded, self.values):
             return decoded  # type: ignore[return-value]
 
         raise ValueError(f"{decoded!r} is not one of {self.values!r}")
